@@ -294,7 +294,28 @@ pub fn run_child<F: FnOnce(&Ctx) -> Shard>(args: &[String], f: F) -> i32 {
         deadline: Instant::now() + Duration::from_secs(soft),
         known: evidence::load_known(),
     };
-    let shard = f(&ctx);
+    // a panic that escapes a check (outside the calls it monitors itself) must not turn the whole shard into
+    // "no result": if it was raised inside pearl's own sources on an input the storage or the tools
+    // produced themselves, it is a violation; anywhere else (harness, third-party crate) it is a harness error: inconclusive
+    let known = ctx.known.clone();
+    let (property, seed) = (ctx.property.clone(), ctx.seed);
+    let shard = match std::panic::catch_unwind(std::panic::AssertUnwindSafe(|| f(&ctx))) {
+        Ok(s) => s,
+        Err(_) => {
+            let panics = take_panics();
+            let last = panics.last().cloned().unwrap_or_default();
+            let loc = last.rsplit(" @ ").next().unwrap_or("").to_string();
+            let mut sh = Shard::default();
+            // the panic hook records the source location: pearl's sources are compiled from <repo>/src/...
+            let repo = std::env::var("VERIF_REPO").unwrap_or_else(|_| "/repo".to_string());
+            if loc.starts_with(&format!("{}/src/", repo.trim_end_matches('/'))) {
+                sh.violation(&known, &property, seed, &format!("{}/panic-outside-monitored-call", property.to_uppercase()), &format!("the check was aborted by a panic raised in pearl's sources: {:?}", panics), serde_json::json!({"check": "escaped-panic", "panics": panics}));
+            } else {
+                sh.inconclusive.push(format!("the check was aborted by a panic outside pearl's sources: {:?}", panics));
+            }
+            sh
+        }
+    };
     cleanup_scratch();
     let body: Value = shard.to_json();
     if std::fs::write(&args[6], serde_json::to_string(&body).unwrap_or_default()).is_err() {
